@@ -50,6 +50,10 @@ def rule_reported_length(fb, res, rid="C04-R6"):
                 if i.get("field") == bufq and isinstance(i.get("e"), dict):
                     a = (i["e"].get("args") or [])
                     sized_by_init = bool(a) and strip_all_casts(a[0]).get("decl") == sizep
+                    if not sized_by_init:
+                        # the member is built from a vector value (`cond ? vector(data, data + size) : vector(size)`): every alternative has `size` bytes
+                        vs = facts.vector_value_sizes(ctor3, i["e"])
+                        sized_by_init = bool(vs) and all(strip_all_casts(facts.expand(ctor3, v)).get("decl") == sizep for v in vs)
                 elif i.get("delegating") and isinstance(i.get("e"), dict):
                     g = fb.resolve_call(i["e"])
                     dargs = facts.effective_call(i["e"]).get("args", []) if g is not None else []
